@@ -4,7 +4,7 @@ Require Import List NArith Bool PeanoNat Lia String.
 Require Import KV.Parser.Utf8 KV.Parser.Unicode KV.Parser.Keywords KV.Parser.Scanners KV.Parser.Grammar KV.Parser.Run.
 Require Import KV.Parser.Utf8Proofs KV.Parser.ScannerProofs KV.Parser.GrammarProofs.
 Require Import KV.Parser.RoundTrip KV.Parser.RoundTrip2 KV.Parser.RoundTrip3 KV.Parser.Lex KV.Parser.StmtRT KV.Parser.FilterRT KV.Parser.FilterRT2
-               KV.Parser.SelectRT KV.Parser.BindRT KV.Parser.ValuesRT KV.Parser.GroupRT KV.Parser.PrologueRT KV.Parser.TopRT KV.Parser.SizeRT KV.Parser.UpdateRT.
+               KV.Parser.SelectRT KV.Parser.BindRT KV.Parser.ValuesRT KV.Parser.GroupRT KV.Parser.PrologueRT KV.Parser.TopRT KV.Parser.SizeRT KV.Parser.UpdateRT KV.Parser.TokenRT.
 Import ListNotations.
 Open Scope N_scope.
 
@@ -198,4 +198,27 @@ Proof. vm_compute. split; reflexivity. Qed.
 Example update_bad_rejected : exists k l e, update_core 10 false (pr_upd upd_bad ++ pr_end tail) = Err k l e.
 Proof.
   apply insert_data_rejects_variables; [exact (proj1 (proj2 (proj2 (proj2 updates_wf))))|vm_compute; reflexivity|vm_compute; reflexivity|exact (proj2 (end_facts tail (proj2 (proj2 query_wf))))].
+Qed.
+
+(* ---- further token classes (TokenRT.v): instances of the theorems ------------------------------------------------------------------- *)
+Example token_examples :
+  numeric_literal (bs " -1.5e+10 ;") = Ok (bs "-1.5e+10", bs " ;") /\
+  quoted_literal (bs "'chat'@en-GB-x1 .") = Ok (bs "'chat'@en-GB-x1", bs " .") /\
+  quoted_literal (bs """1""^^ <http://x/int>.") = Ok (bs """1""^^ <http://x/int>", bs ".") /\
+  quoted_literal (bs "'''a ""b""
+ d'''^^xsd:string ,") = Ok (bs "'''a ""b""
+ d'''^^xsd:string", bs " ,").
+Proof. vm_compute. repeat split; reflexivity. Qed.
+Example token_theorem_instances :
+  TokenRT.NumTokE (bs "-1.5e+10") /\ TokenRT.LangTag (bs "en-GB-x1") /\ TokenRT.AnyLit (bs "'chat'") /\
+  TokenRT.AnyLit (bs "'''a ""b""
+ d'''").
+Proof.
+  repeat split.
+  - apply (TokenRT.numtok_e (bs "-1.5") 101 [43] (bs "10")); [|now left|right; now left|repeat constructor|discriminate].
+    apply (numtok [45] (bs "1") (bs ".5")); [right; now right|repeat constructor|right; exists (bs "5"); repeat split; [discriminate|repeat constructor]|left; discriminate].
+  - apply (TokenRT.langtag (bs "en") [bs "GB"; bs "x1"]); [discriminate|repeat constructor|repeat constructor; discriminate].
+  - left. apply (littok 39 (map LCh (bs "chat"))); [now right|]. repeat constructor; cbv; discriminate.
+  - right. apply (TokenRT.longtok 39 (map LCh (bs "a ""b""
+ d"))); [now right|]. repeat constructor; cbv; discriminate.
 Qed.
